@@ -147,7 +147,7 @@ fn panic_kind(msg: &str) -> String {
 
 /// Small fixed contracts. Every one has a `pragma solidity` line and no free function (detectors that abort
 /// without them are other properties' business). Several share patterns so that merging matters.
-const SOURCES: [&str; 9] = [
+const SOURCES: [&str; 10] = [
     // 0: FloatingPragma, OptimalComparison
     "// SPDX-License-Identifier: MIT\npragma solidity ^0.8.0;\n\ncontract A0 {\n    uint256 public total;\n\n    function cmp(uint256 x, uint256 y) public view returns (bool) {\n        return x >= y;\n    }\n}\n",
     // 1: UnsafeERC20Operation, PrivateFuncLeadingUnderscore (public function with a leading underscore)
@@ -166,6 +166,8 @@ const SOURCES: [&str; 9] = [
     "interface IT7 {\n    function approve(address to, uint256 v) external returns (bool);\n}\n\ncontract A7 {\n    uint256 v;\n\n    function f(address t, address a, uint256 b, uint256 c) public returns (uint256) {\n        IT7(t).approve(a, b);\n        return a == address(0) ? 0 : b / c * 3;\n    }\n\n    constructor() {\n        v = 1;\n    }\n}\n",
     // 8: no contract, library or interface at all: a caret pragma and file-level types / constants / a free function (FloatingPragma, OptimalComparison)
     "pragma solidity ^0.8.0;\n\nstruct Position {\n    uint128 a;\n    uint128 b;\n}\n\nenum Side { Long, Short }\n\nuint256 constant MAX = 10;\n\nfunction atLeast(uint256 x, uint256 y) pure returns (bool) {\n    return x >= y;\n}\n",
+    // 9: white space and line breaks only (parses to an empty source unit: no finding, and nothing of it may leak into the next file)
+    "\n\n   \n\t\n\n\n",
 ];
 
 #[derive(Clone, Copy, PartialEq, Eq, PartialOrd, Ord, Hash, Debug)]
